@@ -191,11 +191,19 @@ func (bc BoundedComparator) Min(a, b frontend.Variable) frontend.Variable {
 
 // cmpInField compares a and b in a finite field of the specified order.
 func cmpInField(a, b, order *big.Int) int {
+	// the sign of a - b, seen as an element of (-order/2, order/2]. Comparing
+	// the difference (and not the operands) with order/2 keeps the result
+	// correct when a and b are close but on different sides of order/2.
 	biggestPositiveNum := new(big.Int).Rsh(order, 1)
-	if a.Cmp(biggestPositiveNum)*b.Cmp(biggestPositiveNum) == -1 {
-		return -a.Cmp(b)
+	diff := new(big.Int).Sub(a, b)
+	diff.Mod(diff, order)
+	if diff.Sign() == 0 {
+		return 0
 	}
-	return a.Cmp(b)
+	if diff.Cmp(biggestPositiveNum) == 1 {
+		return -1
+	}
+	return 1
 }
 
 // minOutputHint produces the output of [BoundedComparator.Min] as a hint.
